@@ -7,6 +7,17 @@
 
 using namespace api;
 
+// the 18 supported schemas plus 3.0.0, which has a creator and a validator although supported_schemas does not list it
+static const std::vector<e::engine_schema>& schemas_ext()
+{
+    static std::vector<e::engine_schema> v = [] {
+        auto x = schemas();
+        x.push_back(e::engine_schema::schema_3_0_0);
+        return x;
+    }();
+    return v;
+}
+
 static std::string repo_dir()
 {
     const char* r = getenv("VERIF_REPO");
@@ -144,9 +155,19 @@ static const std::vector<std::pair<e::engine_schema, Triple>>& supported_triples
         {es::schema_2_21_1, {2, 21, 1}}, {es::schema_2_21_2, {2, 21, 2}}};
     return t;
 }
+// the same plus 3.0.0 (used where created libraries of every schema with a creator are examined: C12, C17)
+static const std::vector<std::pair<e::engine_schema, Triple>>& creatable_triples()
+{
+    static const std::vector<std::pair<e::engine_schema, Triple>> t = [] {
+        auto x = supported_triples();
+        x.push_back({e::engine_schema::schema_3_0_0, {3, 0, 0}});
+        return x;
+    }();
+    return t;
+}
 static Triple triple_of(e::engine_schema s)
 {
-    for (auto& kv : supported_triples())
+    for (auto& kv : creatable_triples())
         if (kv.first == s)
             return kv.second;
     return {0, 0, 0};
@@ -208,7 +229,7 @@ static const std::vector<RefDump>& refs()
                     rd.p_items = master_items(p.db, "");
                 }
                 // assignment to a schema: by the dump's own Information row; the two 1.18.0 variants by product line
-                for (auto& kv : supported_triples())
+                for (auto& kv : creatable_triples())
                 {
                     if (kv.second.maj != rd.version.maj || kv.second.min != rd.version.min || kv.second.pat != rd.version.pat)
                         continue;
@@ -232,7 +253,7 @@ static const std::vector<RefDump>& refs()
 static void prop_c12(const vf::Case& c, Ctx& ctx)
 {
     uint64_t i = c[0].empty() ? 0 : c[0][0];
-    auto schema = schemas()[(i / 2) % schemas().size()];
+    auto schema = schemas_ext()[(i / 2) % schemas_ext().size()];
     bool on_disk = (i % 2) == 0;
     bool v2 = is_v2(schema);
     ctx.label("schema=" + sname(schema));
@@ -669,7 +690,8 @@ static const std::vector<std::string>& mutation_kinds()
 static void prop_c17(const vf::Case& c, Ctx& ctx)
 {
     S s(c[0]);
-    auto schema = pick_schema(s, ctx);
+    auto schema = schemas_ext()[s.below(schemas_ext().size())];
+    ctx.label("schema=" + sname(schema));
     bool v2 = is_v2(schema);
     ScratchDir sd;
     std::string dir = sd.lib();
@@ -1011,7 +1033,7 @@ int main(int argc, char** argv)
         p.enum_total = enum_total;
         specs.push_back(p);
     };
-    add("C12", prop_c12, 1, 36);
+    add("C12", prop_c12, 1, 38);
     add("C12.norm", prop_c12_norm, 8, 0);
     add("C13", prop_c13, 1, C13_TOTAL);
     add("C17", prop_c17, 12, 0);
